@@ -78,40 +78,121 @@ def _wrap(args):
     func, item = args
     try:
         return ("ok", func(item))
-    except BaseException:
+    except BaseException as e:
+        # an exception escaping from the *library under test* at a place where the harness did not
+        # expect one is a finding about the library, not a harness failure
+        tb = traceback.extract_tb(e.__traceback__)
+        lib_frames = [f for f in tb if os.sep + ".build" + os.sep in f.filename and os.sep + "digital_rf" + os.sep in f.filename]
+        if lib_frames and not isinstance(e, (KeyboardInterrupt, SystemExit, MemoryError, HarnessError)):
+            part = new_part()
+            part["evaluations"] = 1
+            last = lib_frames[-1]
+            part["violations"].append(Violation(
+                {"class": "library_raised_unexpectedly", "exc": type(e).__name__, "where": "%s:%s" % (os.path.basename(last.filename), last.name)},
+                {"work_item": repr(item)[:3000]},
+                "unexpected %s from %s:%d (%s): %s" % (type(e).__name__, os.path.basename(last.filename), last.lineno, last.name, str(e)[:300])))
+            return ("ok", part)
         return ("err", traceback.format_exc(), repr(item)[:2000])
-    finally:
-        pass
+
+
+def _wrap_isolated(args):
+    """run one work item in a forked child of the pool worker: if the code under test kills the
+    process (abort(), assertion failure, segfault in the C library) only that item is lost and it
+    is reported as a violation; the pool itself survives"""
+    import pickle
+
+    func, item = args
+    r, w = os.pipe()
+    pid = os.fork()
+    if pid == 0:
+        code = 0
+        try:
+            os.close(r)
+            res = _wrap(args)
+            with os.fdopen(w, "wb") as f:
+                pickle.dump(res, f, protocol=pickle.HIGHEST_PROTOCOL)
+        except BaseException:
+            code = 71
+        finally:
+            os._exit(code)
+    os.close(w)
+    chunks = []
+    with os.fdopen(r, "rb") as f:
+        while True:
+            c = f.read(1 << 20)
+            if not c:
+                break
+            chunks.append(c)
+    _, status = os.waitpid(pid, 0)
+    data = b"".join(chunks)
+    if os.WIFSIGNALED(status) or not data:
+        how = "signal %d" % os.WTERMSIG(status) if os.WIFSIGNALED(status) else "exit status %d" % os.WEXITSTATUS(status)
+        return ("ok", _crash_part(item, how))
+    return pickle.loads(data)
 
 
 class HarnessError(Exception):
     pass
 
 
-def pmap(func, items, chunksize=None, nproc=None):
-    """Ordered parallel map over a fork pool; harness exceptions are fatal (exit 2)."""
+def _crash_part(item, how):
+    """result for a work item whose worker process was killed by the code under test (abort(),
+    assertion failure or segfault inside the C library): reported as a violation, never a hang"""
+    part = new_part()
+    part["evaluations"] = 1
+    part["violations"].append(Violation({"class": "process_crashed"}, {"crashed_work_item": repr(item)[:3000]},
+                                        "the process executing this work item died (%s): the library aborted or crashed" % how))
+    return part
+
+
+def pmap(func, items, chunksize=None, nproc=None, isolate=True):
+    """Ordered parallel map over a fork pool; harness exceptions are fatal (exit 2).  A worker that is
+    killed (abort()/segfault in the C library under test) does not hang the run: the offending item is
+    isolated by re-running the unfinished items one process each and reported as a violation."""
+    from concurrent.futures import ProcessPoolExecutor
+    from concurrent.futures.process import BrokenProcessPool
+
     items = list(items)
     if not items:
         return []
     nproc = nproc or NPROC
     scratch_root()
     if nproc <= 1 or len(items) == 1:
-        out = []
-        for it in items:
-            out.append(func(it))
-        return out
-    if chunksize is None:
-        chunksize = max(1, min(64, len(items) // (nproc * 8) or 1))
+        return [func(it) for it in items]
     ctx = multiprocessing.get_context("fork")
-    with ctx.Pool(nproc, initializer=_init_worker) as pool:
-        res = []
-        for r in pool.imap(_wrap, [(func, it) for it in items], chunksize):
+    results = [None] * len(items)
+    pending = set(range(len(items)))
+    ex = ProcessPoolExecutor(nproc, mp_context=ctx, initializer=_init_worker)
+    try:
+        runner = _wrap_isolated if isolate else _wrap
+        futs = {i: ex.submit(runner, (func, items[i])) for i in range(len(items))}
+        broken = False
+        for i in range(len(items)):
+            try:
+                r = futs[i].result()
+            except BrokenProcessPool:
+                broken = True
+                continue
             if r[0] == "err":
-                pool.terminate()
                 raise HarnessError("worker failed on %s:\n%s" % (r[2], r[1]))
-            res.append(r[1])
-    # workers' scratch roots
-    return res
+            results[i] = r[1]
+            pending.discard(i)
+    finally:
+        ex.shutdown(wait=False, cancel_futures=True)
+    if pending:
+        # isolate: every unfinished item in its own process
+        for i in sorted(pending):
+            ex1 = ProcessPoolExecutor(1, mp_context=ctx, initializer=_init_worker)
+            try:
+                r = ex1.submit(_wrap, (func, items[i])).result()
+                if r[0] == "err":
+                    raise HarnessError("worker failed on %s:\n%s" % (r[2], r[1]))
+                results[i] = r[1]
+            except BrokenProcessPool:
+                results[i] = _crash_part(items[i], "worker process terminated abnormally")
+            finally:
+                ex1.shutdown(wait=False, cancel_futures=True)
+    return results
 
 
 def cleanup_worker_scratch():
